@@ -1135,6 +1135,9 @@ int EGLPNUM_TYPENAME_ILLwrite_mps (
 	char **rownames = (char **) NULL;
 	EGLPNUM_TYPENAME_ILLlp_rows lp_rows, *lprows = NULL;
 	char buf[ILL_namebufsize];
+	char rhsname[ILL_namebufsize];
+	char rngname[ILL_namebufsize];
+	char bndname[ILL_namebufsize];
 	char *objname = NULL;
 	char *str;
 
@@ -1154,6 +1157,18 @@ int EGLPNUM_TYPENAME_ILLwrite_mps (
 		ILL_CLEANUP_IF (rval);
 		ILL_UTIL_STR (objname, buf);
 	}
+	/* the reader takes the first field of a RHS/RANGES/BOUNDS record for a
+	 * row/column name when it is one (blank set name): the set names written
+	 * here must not be names of the problem */
+	strcpy (rhsname, "RHS");
+	rval = ILLsymboltab_uname (&lp->rowtab, rhsname, "", NULL);
+	ILL_CLEANUP_IF (rval);
+	strcpy (rngname, "RANGE");
+	rval = ILLsymboltab_uname (&lp->rowtab, rngname, "", NULL);
+	ILL_CLEANUP_IF (rval);
+	strcpy (bndname, "BOUND");
+	rval = ILLsymboltab_uname (&lp->coltab, bndname, "", NULL);
+	ILL_CLEANUP_IF (rval);
 	EGLPNUM_TYPENAME_ILLprint_report (lp, "NAME    %s\n", lp->probname);
 	EGLPNUM_TYPENAME_ILLprint_report (lp, "OBJSENSE\n  %s\n",
 									 (lp->objsense == EGLPNUM_TYPENAME_ILL_MIN) ? "MIN" : "MAX");
@@ -1256,7 +1271,7 @@ int EGLPNUM_TYPENAME_ILLwrite_mps (
 		if ((lprows->rowcnt[i] != 0) && EGLPNUM_TYPENAME_EGlpNumIsNeqqZero (lp->rhs[i]))
 		{
 			str = EGLPNUM_TYPENAME_EGlpNumGetStr(lp->rhs[i]);
-			EGLPNUM_TYPENAME_ILLprint_report (lp, " RHS    %s    %s\n", rownames[i], str);
+			EGLPNUM_TYPENAME_ILLprint_report (lp, " %s    %s    %s\n", rhsname, rownames[i], str);
 			EGfree(str);
 		}
 	}
@@ -1269,7 +1284,7 @@ int EGLPNUM_TYPENAME_ILLwrite_mps (
 			if ((lprows->rowcnt[i] != 0) && EGLPNUM_TYPENAME_EGlpNumIsNeqqZero (lp->rangeval[i]))
 			{
 				str = EGLPNUM_TYPENAME_EGlpNumGetStr(lp->rangeval[i]);
-				EGLPNUM_TYPENAME_ILLprint_report (lp, " RANGE    %s    %s\n", rownames[i], str);
+				EGLPNUM_TYPENAME_ILLprint_report (lp, " %s    %s    %s\n", rngname, rownames[i], str);
 				EGfree(str);
 			}
 		}
@@ -1285,14 +1300,14 @@ int EGLPNUM_TYPENAME_ILLwrite_mps (
 			if (EGLPNUM_TYPENAME_EGlpNumIsEqqual (lp->lower[i], lp->upper[i]))
 			{
 				str = EGLPNUM_TYPENAME_EGlpNumGetStr(lp->lower[i]);
-				EGLPNUM_TYPENAME_ILLprint_report (lp, " FX BOUND    %s    %s\n", colnames[ri], str);
+				EGLPNUM_TYPENAME_ILLprint_report (lp, " FX %s    %s    %s\n", bndname, colnames[ri], str);
 				EGfree(str);
 				continue;
 			}
 			if ((EGLPNUM_TYPENAME_EGlpNumIsEqqual (lp->lower[i], EGLPNUM_TYPENAME_ILL_MINDOUBLE)) &&
 					(EGLPNUM_TYPENAME_EGlpNumIsEqqual (lp->upper[i], EGLPNUM_TYPENAME_ILL_MAXDOUBLE)))
 			{
-				EGLPNUM_TYPENAME_ILLprint_report (lp, " FR BOUND    %s\n", colnames[ri]);
+				EGLPNUM_TYPENAME_ILLprint_report (lp, " FR %s    %s\n", bndname, colnames[ri]);
 				continue;
 			}
 			prtLower = !EGLPNUM_TYPENAME_ILLraw_default_lower (lp, i);
@@ -1301,12 +1316,12 @@ int EGLPNUM_TYPENAME_ILLwrite_mps (
 			{
 				if (EGLPNUM_TYPENAME_EGlpNumIsEqqual (lp->lower[i], EGLPNUM_TYPENAME_ILL_MINDOUBLE))
 				{
-					EGLPNUM_TYPENAME_ILLprint_report (lp, " MI BOUND    %s\n", colnames[ri]);
+					EGLPNUM_TYPENAME_ILLprint_report (lp, " MI %s    %s\n", bndname, colnames[ri]);
 				}
 				else
 				{
 					str = EGLPNUM_TYPENAME_EGlpNumGetStr(lp->lower[i]);
-					EGLPNUM_TYPENAME_ILLprint_report (lp, " LO BOUND    %s    %s\n", colnames[ri], str);
+					EGLPNUM_TYPENAME_ILLprint_report (lp, " LO %s    %s    %s\n", bndname, colnames[ri], str);
 					EGfree(str);
 				}
 			}
@@ -1314,12 +1329,12 @@ int EGLPNUM_TYPENAME_ILLwrite_mps (
 			{
 				if (EGLPNUM_TYPENAME_EGlpNumIsEqqual (lp->upper[i], EGLPNUM_TYPENAME_ILL_MAXDOUBLE))
 				{
-					EGLPNUM_TYPENAME_ILLprint_report (lp, " PL BOUND    %s\n", colnames[ri]);
+					EGLPNUM_TYPENAME_ILLprint_report (lp, " PL %s    %s\n", bndname, colnames[ri]);
 				}
 				else
 				{
 					str = EGLPNUM_TYPENAME_EGlpNumGetStr(lp->upper[i]);
-					EGLPNUM_TYPENAME_ILLprint_report (lp, " UP BOUND    %s    %s\n", colnames[ri], str);
+					EGLPNUM_TYPENAME_ILLprint_report (lp, " UP %s    %s    %s\n", bndname, colnames[ri], str);
 					EGfree(str);
 				}
 			}
